@@ -2,7 +2,7 @@
 TLC generates the histories (exhaustively for length 2, -simulate for longer ones) together with the records the
 CONTRACT of spec/SnoopyCall.tla expects for every call -- a function of the current file and call only.  Each history is
 replayed in ONE process against the production library (thread-safe and non-thread-safe builds)."""
-import json, random
+import json, os, random
 from vlib import common as c
 from checks import callflow as cf
 
@@ -71,6 +71,49 @@ def run_hist_prop(prop, tier, seed, extra=None):
                 rep.violation("%s:%s:%s" % (v, sig.split(":")[0] + ":" + sig.split(":")[1] if ":" in sig else sig,
                                             "after-" + (prev["state"] if prev and prev["state"] != "ok" else (prev["out"] if prev else "first"))),
                               "[%s build] %s" % (v, what), dict(build=v, history=steps, failing_step=k, expected=expects[label][k]))
+        # differential oracle: the last step of every history must leave at every sink exactly what the same call leaves as the FIRST call of a
+        # fresh process (error records included, which the contract otherwise only tolerates); numbers of two or more digits (pids, sids) are masked
+        if prop == "C11":
+            import re as _re
+            def step_sig(o, k):
+                st = (o or {}).get("steps", {}).get(k, {})
+                sig = {}
+                wd = [x for x in {o["ctx"].w.encode(), os.path.realpath(o["ctx"].w).encode()}] if o and o.get("ctx") else []
+                for ev in ("at", "ret"):
+                    for e in st.get(ev, []):
+                        for sn, data in (e.get("sinks") or {}).items():
+                            for rec in cf.frame_records(sn, data):
+                                for w_ in wd:
+                                    rec = rec.replace(w_, b"<workdir>")      # the worker's own directory (it shows in %{cwd} and in paths)
+                                sig.setdefault(sn, []).append(_re.sub(rb"\d{2,}", b"N", rec))
+                return sig
+            lastkey, fresh_items = {}, []
+            for label, steps in items:
+                f_, call_, res_ = steps[-1]
+                key = json.dumps([f_, call_, res_], sort_keys=True)
+                if key not in lastkey:
+                    lastkey[key] = "fresh%d" % len(lastkey)
+                    fresh_items.append((lastkey[key], [steps[-1]]))
+            fobs = cf.run_hist(b, fresh_items, b["root"] + "/fresh")
+            ndiff = 0
+            for label, steps in items:
+                o = obs.get(label)
+                if not o or len(o.get("steps", {})) < len(steps):
+                    continue                                   # incomplete histories are reported above
+                key = json.dumps(list(steps[-1]), sort_keys=True)
+                a_, b_ = step_sig(o, len(steps) - 1), step_sig(fobs.get(lastkey[key]), 0)
+                if a_ != b_:
+                    ndiff += 1
+                    if ndiff > 3:
+                        continue
+                    o2 = cf.run_hist(b, [(label, steps)], b["root"] + "/confirm", workers=1)
+                    if step_sig(o2.get(label), len(steps) - 1) == b_:
+                        rep.assumptions.append("non-repeatable difference from the fresh-process run ignored (%s)" % label)
+                        continue
+                    sn = next((x for x in set(a_) | set(b_) if a_.get(x) != b_.get(x)), "?")
+                    rep.violation("%s:differs-from-fresh-process:%s" % (v, sn), "[%s build] after a history of %d calls the last call leaves %r at %s; as the first call of a fresh process it leaves %r" % (
+                        v, len(steps) - 1, [r[:80] for r in a_.get(sn, [])][:3], sn, [r[:80] for r in b_.get(sn, [])][:3]), dict(build=v, history=steps))
+            rep.cov["last_steps_compared_with_fresh_process"] = len(items)
     if extra:
         nextra = extra(rep, b)
         total += nextra
